@@ -30,9 +30,9 @@ META = {
     'assumptions': ['invariants are evaluated at quiescent points (after the outermost public call returned)'],
     'shards': {'quick': 8, 'thorough': 16},
     'quotas': {
-        'quick': {'steps-checked': 20000, 'op:remove_node': 2000, 'op:add_node': 2000, 'op:add_node-used-id:raised': 200,
+        'quick': {'steps-checked': 10000, 'op:remove_node': 2000, 'op:add_node': 1000, 'op:add_node-used-id:raised': 200,
                   'op:regenerate': 100, 'regenerate-compared-with-fresh': 100, 'op:deepcopy': 300, 'op:save-load': 100,
-                  'op:prune': 300, 'op:attach_attackers': 100, 'op:remove_attacker': 300, 'class:remove-compromised-node': 100,
+                  'op:prune': 300, 'op:attach_attackers': 100, 'op:remove_attacker': 200, 'class:remove-compromised-node': 100,
                   'class:remove-entry-point': 50, 'class:remove-then-lookup': 1000, 'exhaustive-histories': 1000,
                   'class:regenerate-after-mutation': 50},
         'thorough': {'steps-checked': 2000000, 'op:remove_node': 200000, 'op:regenerate': 10000, 'op:deepcopy': 30000,
@@ -427,9 +427,57 @@ def run(rng, res, tier, shard, nshards):
         res.notes['time-cap-hit'] = True
     reach.stop()
     res.reach = dict(reach.counts)
+    if tier == 'thorough' and shard == 0:
+        suite_under_invariants(res)
+
+
+# tests that wire children / parents by hand on nodes that are only partly added: the invariants
+# concern what the library's operations produce (witnesses read: tests/attackgraph/test_node.py:45-52,
+# tests/attackgraph/test_query.py:47-49)
+HANDWIRED_TESTS = ('tests/attackgraph/test_node.py::test_attackgraphnode',
+                   'tests/attackgraph/test_query.py::test_query_is_node_traversable_by_attacker')
+
+
+def suite_under_invariants(res):
+    """supplementary workload: the repository's own test-suite executed with I1-I3 and the compromise symmetry
+    installed on every public AttackGraph / analyzer operation (mtv/pytest_inv.py)"""
+    import json
+    import subprocess
+    import tempfile
+    from .. import env
+    d = tempfile.mkdtemp(prefix='c09-suite-', dir=os.getcwd())
+    out = os.path.join(d, 'inv.json')
+    e = dict(os.environ)
+    e['MTV_INV_OUT'] = out
+    e['PYTHONPATH'] = env.VERIF_DIR + os.pathsep + env.REPO
+    try:
+        subprocess.run(['/venv/bin/python', '-m', 'pytest', os.path.join(env.REPO, 'tests'), '-p', 'mtv.pytest_inv', '-q',
+                        '-p', 'no:cacheprovider', '-x', '--timeout=600'], cwd=d, env=e, capture_output=True, timeout=900)
+        with open(out) as f:
+            data = json.load(f)
+    except Exception as exc:
+        res.notes['suite-under-invariants'] = 'not run: %r' % (exc,)
+        shutil.rmtree(d, ignore_errors=True)
+        return
+    shutil.rmtree(d, ignore_errors=True)
+    res.count('suite-under-invariants:calls-checked', data['checked'])
+    seen = set()
+    for v in data['violations']:
+        if v['test'] in HANDWIRED_TESTS:
+            res.count('suite-under-invariants:firings-in-handwired-tests')
+            continue
+        if v['key'] in seen:
+            continue
+        seen.add(v['key'])
+        res.violation('suite-under-invariants:' + v['key'], 'in %s after %s: %s' % (v['test'], v['after'], v['what']),
+                      {'start': ['suite', v['test']], 'history': []})
 
 
 def replay(case, res):
+    if case['start'][0] == 'suite':
+        suite_under_invariants(res)
+        res.case(None)
+        return
     start = tuple(case['start'])
     for h in (case['history'], case.get('original_history')):
         if h is None:
